@@ -16,6 +16,9 @@ import (
 
 func genC17(rng *rand.Rand, c *Case) {
 	c.Cfg["policy"] = rng.Intn(3)
+	// the operator reloads the configuration (SIGHUP / admin API) while requests are in flight
+	c.Cfg["reloads"] = 40 * rng.Intn(2)
+	c.Cfg["reload_delay"] = rng.Intn(60)
 	c.Cfg["seg_c2s"] = rng.Intn(2)
 	n := 1 + rng.Intn(3)
 	for v := 0; v < n; v++ {
@@ -311,6 +314,7 @@ func runC17(w *World) {
 			}
 		}
 	})
+	w.StartOperator(w.Case.Cfg["reloads"], w.Case.Cfg["reload_delay"])
 	w.Sim.Run()
 }
 
